@@ -23,6 +23,11 @@ def generate(gen, tier):
             t = gen.with_leafless(t, 0.4)
         cfg = gen.cfg()
         cases.append(mk_case(cfg, t))
+    # dict / defaultdict nodes whose keys cannot be sorted at all (the traversals must agree on the fallback order too)
+    for _ in range(40 if tier == 'quick' else 1500):
+        t = gen.tree(depth=gen.rng.choice([1, 2, 3]), width=gen.rng.choice([2, 3, 4]), key_style='unsortable',
+                     weights=[1, 1, 6, 1, 4, 1, 1, 0, 1, 1, 2])
+        cases.append(mk_case(gen.cfg(pred=gen.rng.choice([0, 0, 0, 2])), t))
     # depth chains around the limit
     kinds = ['T', 'l', 'D', 'O', 'DD', 'Q', 'NT', 'U']
     depths = [999, 1000, 1001] if tier == 'quick' else [998, 999, 1000, 1001, 1002, 1500]
